@@ -32,6 +32,9 @@ impl io::Read for RSource {
                 _ => { if s.desync.is_none() { s.desync = Some("extra_read".into()) } return Err(io::Error::new(io::ErrorKind::Other, "schedule-end")) }
             }
         } else {
+            // past the event budget the run simply stops inside this call (as at the end of a scripted schedule)
+            if crate::awrite::budget_over() { return Err(io::Error::new(io::ErrorKind::Other, "schedule-end")) }
+            crate::awrite::budget_note();
             let r = s.rng.gen_range(0..100);
             if r < 15 && s.intr_run < 3 { s.intr_run += 1; ("intr".to_string(), 0) }
             else if avail == 0 { ("eof".to_string(), 0) }
@@ -113,6 +116,7 @@ pub fn run_read_script(frames: &[FrameSpec], cut: usize, maxlen: u32, sched: &Va
 /// One seeded random run of the blocking reader: header, then one event per caller read(), inner read and result.
 pub fn run_read_random(seed: u64, nframes: usize, max_payload: usize) -> Vec<Value> {
     let mut rng = StdRng::seed_from_u64(seed);
+    crate::awrite::budget_reset();
     let maxlen = if seed % 4 == 0 { (max_payload as u32 * 3) / 4 + 1 } else { max_payload as u32 };
     let frames: Vec<FrameSpec> = (0..nframes).map(|i| {
         let n = match rng.gen_range(0..10) { 0 => 0, 1 => 1, 2 => max_payload, _ => rng.gen_range(1..=max_payload) };
@@ -134,6 +138,7 @@ pub fn run_read_random(seed: u64, nframes: usize, max_payload: usize) -> Vec<Val
         let r = reader.read::<Fr>();
         let big = crate::alloc::max_one() > 2 * maxlen as usize + 4096;
         for e in shared.borrow_mut().log.drain(..) { events.push(e) }
+        if matches!(&r, Err(e) if is_schedule_end(e)) { break }
         let c = crate::aread::classify(r, &frames);
         let kind = c[0].as_str().unwrap().to_string();
         events.push(json!({"ev":"ret","k":0,"r":c,"bigalloc":big}));
@@ -158,7 +163,8 @@ impl io::Write for WSink {
                 None => return Err(io::Error::new(io::ErrorKind::Other, "schedule-end")),
                 _ => { if s.desync.is_none() { s.desync = Some("extra_write".into()) } return Err(io::Error::new(io::ErrorKind::Other, "schedule-end")) }
             }
-        } else {
+        } else if crate::awrite::budget_over() { ("fail".to_string(), 0) } else {
+            crate::awrite::budget_note();
             let r = s.rng.gen_range(0..100);
             if r < 15 && s.intr_run < 3 { s.intr_run += 1; ("intr".to_string(), 0) }
             else if r < 17 && s.faults_left > 0 { s.faults_left -= 1; (if r < 16 { "zero" } else { "fail" }.to_string(), 0) }
@@ -218,6 +224,7 @@ pub fn run_write_script(vals: &[i64], maxlen: u32, sched: &Value) -> Value {
 }
 
 pub fn run_write_random(seed: u64, nvals: usize, max_payload: usize) -> Vec<Value> {
+    crate::awrite::budget_reset();
     let mut rng = StdRng::seed_from_u64(seed);
     let maxlen = if seed % 3 == 0 { (max_payload as u32 * 3) / 4 + 1 } else { max_payload as u32 };
     let vals: Vec<i64> = (0..nvals).map(|_| match rng.gen_range(0..12) { 0 => -1, 1 => 1, 2 => max_payload as i64, _ => rng.gen_range(1..=max_payload as i64) }).collect();
